@@ -362,6 +362,62 @@ theorem rejects_zero_step (p : String) (d : DocV1) (s : SchedV1) (hs : s ∈ d.s
     ∃ err, convertV1 p d = .error err :=
   rejects p d (Or.inl ⟨s, hs, Or.inr hz⟩)
 
+/-- **C10 (rejected, as one predicate of the declared document)** `Spec.mustReject` — a bad crontab, an invalid
+selector of a kubernetes binding, an invalid object `labelSelector` or `namespace.labelSelector` of a
+validating **or mutating** binding, an unknown or ambiguous declared include in a binding of any kind — makes
+the conversion fail. This is the predicate the driver's `oracle verdict` line evaluates on the declared
+document against the verdict the implementation showed. -/
+theorem rejects_spec (p : String) (d : DocV1) (h : Spec.mustReject d = true) :
+    ∃ err, convertV1 p d = .error err := by
+  have incl : ∀ l : List String, Spec.includesOK (d.kubes.map Spec.kubeDefaults) l = false →
+      ∃ n ∈ l, countName (d.kubes.map Spec.kubeDefaults) n ≠ 1 := by
+    intro l hl
+    simp only [Spec.includesOK, List.all_eq_false, beq_iff_eq] at hl
+    obtain ⟨n, hn, hc⟩ := hl
+    exact ⟨n, hn, hc⟩
+  simp only [Spec.mustReject, Bool.or_eq_true] at h
+  rcases h with (((h | h) | h) | h) | h
+  · simp only [Spec.badCrontab, List.any_eq_true, Bool.or_eq_true, Bool.not_eq_true'] at h
+    obtain ⟨s, hs, hb⟩ := h
+    exact rejects p d (Or.inl ⟨s, hs, hb⟩)
+  · simp only [Spec.badKubeSelector, List.any_eq_true, Bool.or_eq_true, Bool.not_eq_true', Bool.and_eq_true] at h
+    obtain ⟨k, hk, hb⟩ := h
+    refine rejects p d (Or.inr (Or.inl ⟨k, hk, ?_⟩))
+    rcases hb with (hb | hb) | hb
+    · exact Or.inl hb
+    · exact Or.inr (Or.inl hb)
+    · exact Or.inr (Or.inr (Or.inr hb))
+  · simp only [Spec.badAdmObjectSelector, List.any_eq_true, Bool.or_eq_true, Bool.not_eq_true'] at h
+    rcases h with ⟨a, ha, hb⟩ | ⟨a, ha, hb⟩
+    · exact rejects p d (Or.inr (Or.inr (Or.inl ⟨a, ha, Or.inl hb⟩)))
+    · exact rejects p d (Or.inr (Or.inr (Or.inr (Or.inl ⟨a, ha, Or.inl hb⟩))))
+  · simp only [Spec.badAdmNamespaceSelector, List.any_eq_true, Bool.or_eq_true, Bool.not_eq_true'] at h
+    rcases h with ⟨a, ha, hb⟩ | ⟨a, ha, hb⟩
+    · exact rejects p d (Or.inr (Or.inr (Or.inl ⟨a, ha, Or.inr (Or.inl hb)⟩)))
+    · exact rejects p d (Or.inr (Or.inr (Or.inr (Or.inl ⟨a, ha, Or.inr hb⟩))))
+  · simp only [Spec.badInclude, List.any_eq_true, Bool.or_eq_true, Bool.not_eq_true'] at h
+    rcases h with (((⟨b, hb, hi⟩ | ⟨b, hb, hi⟩) | ⟨b, hb, hi⟩) | ⟨b, hb, hi⟩) | ⟨b, hb, hi⟩
+    · obtain ⟨n, hn, hc⟩ := incl _ hi
+      exact include_snapshots_checked p d n hc (Or.inl ⟨b, hb, hn⟩)
+    · obtain ⟨n, hn, hc⟩ := incl _ hi
+      exact include_snapshots_checked p d n hc (Or.inr (Or.inl ⟨b, hb, hn⟩))
+    · obtain ⟨n, hn, hc⟩ := incl _ hi
+      exact include_snapshots_checked p d n hc (Or.inr (Or.inr (Or.inl ⟨b, hb, hn⟩)))
+    · obtain ⟨n, hn, hc⟩ := incl _ hi
+      exact include_snapshots_checked p d n hc (Or.inr (Or.inr (Or.inr (Or.inl ⟨b, hb, hn⟩))))
+    · obtain ⟨n, hn, hc⟩ := incl _ hi
+      exact include_snapshots_checked p d n hc (Or.inr (Or.inr (Or.inr (Or.inr ⟨b, hb, hn⟩))))
+
+/-- non-vacuity, and the very input a mutating binding needs: an invalid `namespace.labelSelector` next to a
+valid object selector must be rejected; the same binding with a valid namespace selector loads. -/
+example :
+    Spec.mustReject { mutating := [{ name := "m.example.com", nsSelOK := false }] } = true ∧
+    Spec.rejectReason { mutating := [{ name := "m.example.com", nsSelOK := false }] }
+      = some "invalid-admission-namespace-labelSelector" ∧
+    Spec.mustReject { mutating := [{ name := "m.example.com" }] } = false ∧
+    (∃ e, convertV1 "Fail" { mutating := [{ name := "m.example.com" }] } = .ok e) := by
+  refine ⟨by decide, by decide, by decide, _, rfl⟩
+
 /-- **C10 (valid configs load)** Conversely to the reject theorems: when every check of the conversion
 passes — parsers accept, every declared include names exactly one kubernetes binding, webhooks validate,
 the names each group contributes are unambiguous — the conversion succeeds (and then all the theorems
